@@ -79,4 +79,9 @@ def jobs(tier, seed):
                  functions=["liberasurecode_crc32_alt"], repo_src=[CRC], harness=["harness/k_crc.c"], defines={"MODE": 3},
                  enforce=("liberasurecode_crc32_alt", "c_crc32_alt"), loops=["loops/crc32_alt.json"], expect=["loop_invariant_step", "loop_decreases"],
                  assumptions=["for buffers longer than the crc.short bound, 'crc32_alt == fold of the proved step over bytes 0..n-1' is the definitional composition of crc.step and crc.safety (not mechanised)"]))
+    J.append(Job("gf.refcount", props=["C14", "C16"], layer="L0", strength="Pinf",
+                 title="rs_galois_init_tables/deinit_tables step contracts from an arbitrary reference count: one reference per call, tables allocated once, never reallocated or written while in use, freed exactly by the last deinit, deinit without users harmless (the first init's table-filling loop: gf.native)",
+                 functions=["rs_galois_init_tables", "rs_galois_deinit_tables"], repo_src=[GAL], harness=["harness/k_gf_refcount.c"], defines={"static": ""},
+                 leak=True, unwind=2, cbmc=["--arrays-uf-always"], mem_gb=16, expect=["C14: init takes exactly one reference", "C14: destroying one instance leaves the tables"], timeout=900,
+                 assumptions=["rs_galois.c is compiled with -Dstatic= for this obligation only, so that the harness can put the (otherwise file-local) reference counter init_counter into an arbitrary state; nothing else in that file is static", "the first rs_galois_init_tables call (count 0 -> 1, table-filling loop) is covered natively by gf.native, not by the verifier"]))
     return J
